@@ -18,25 +18,38 @@ def current (s : Store) (i : Id) : Option Elem := visible (s.elems i)
 def asOf (s : Store) (i : Id) (c : Nat) : Option Elem := (elementAt s.vlog i c).map (·.elem)
 
 /-- For every history, every point `k` of it (after the prefix `pre`), and every later suffix of
-statements of any kind and outcome — updates, archives, tombstones, creations, refused and dry
-statements: the element reconstructed at the coordinate of point `k` from the *final* version log
-is exactly the element that was current at `k`, for every id. -/
-theorem as_of_is_then (pre suf : List Stmt) (i : Id) :
+statements of any kind and outcome — updates, archives, tombstones, retractions, creations, purges,
+refused and dry statements: the element reconstructed at the coordinate of point `k` from the
+*final* version log is exactly the element that was current at `k` — for every id that no
+**committed** purge of the suffix destroyed (`erasedRun`: the purges staged by the statements of
+the suffix that committed; a refused or dry statement destroys nothing). -/
+theorem as_of_is_then (pre suf : List Stmt) (i : Id) (hi : i ∉ erasedRun (run Store.init pre) suf) :
     asOf (run (run Store.init pre) suf) i (run Store.init pre).seq = current (run Store.init pre) i := by
   obtain ⟨hwf, _, hv, _⟩ := run_spec init_WF pre
   have hvk := hv init_VInv
-  obtain ⟨_, _, _, extra, hlog, hnew⟩ := run_spec hwf suf
+  have ht := run_TInv init_WF init_TInv pre
+  obtain ⟨extra, hlog, hnew⟩ := run_vlog hwf ht suf
   unfold asOf current
-  rw [hlog, elementAt_skip_newer extra _ i _ hnew]
+  rw [hlog, elementAt_skip_newer extra _ i _ hnew, elementAt_eraseAll_other _ _ i _ hi]
   exact hvk.cur i
 
-/-- the same from any well-formed store whose log reconstructs its present (`VInv`) -/
-theorem as_of_is_then_from (s : Store) (hwf : WF s) (hv : VInv s) (suf : List Stmt) (i : Id) :
-    asOf (run s suf) i s.seq = current s i := by
-  obtain ⟨_, _, _, extra, hlog, hnew⟩ := run_spec hwf suf
+/-- the same from any well-formed, tuple-unique store whose log reconstructs its present (`VInv`) -/
+theorem as_of_is_then_from (s : Store) (hwf : WF s) (ht : TInv s) (hv : VInv s) (suf : List Stmt) (i : Id)
+    (hi : i ∉ erasedRun s suf) : asOf (run s suf) i s.seq = current s i := by
+  obtain ⟨extra, hlog, hnew⟩ := run_vlog hwf ht suf
   unfold asOf current
-  rw [hlog, elementAt_skip_newer extra _ i _ hnew]
+  rw [hlog, elementAt_skip_newer extra _ i _ hnew, elementAt_eraseAll_other _ _ i _ hi]
   exact hv.cur i
+
+/-- … and an element a committed purge of the suffix did destroy has no past left at all -/
+theorem purged_has_no_past (pre suf : List Stmt) (i : Id) (hi : i ∈ erasedRun (run Store.init pre) suf) :
+    asOf (run (run Store.init pre) suf) i (run Store.init pre).seq = none := by
+  obtain ⟨hwf, _, _, _⟩ := run_spec init_WF pre
+  have ht := run_TInv init_WF init_TInv pre
+  obtain ⟨extra, hlog, hnew⟩ := run_vlog hwf ht suf
+  unfold asOf
+  rw [hlog, elementAt_skip_newer extra _ i _ hnew, elementAt_eraseAll_self _ _ i _ hi]
+  rfl
 
 /-- the invariant behind it holds along every history -/
 theorem history_reconstructs_present (l : List Stmt) : VInv (run Store.init l) :=
@@ -63,41 +76,72 @@ theorem as_of_between (l : List Stmt) (i : Id) (c : Nat) (hc : (run Store.init l
   rw [elementAt_coord _ i _ c hv.le hc]
   exact hv.cur i
 
-/-- Only an explicit purge removes the past: the version log of a history is append-only, so the
-answer at a past coordinate can change for element `i` only if rows of `i` are destroyed — and a
-purge of another element's rows (`remove_versions`) changes nothing for `i`. -/
+/-- Only a **committed** purge removes the past. One statement, whatever it contains and however it
+ends, leaves the version log as `new rows ++ old rows minus the rows of erasedOf`, and `erasedOf` is
+empty unless the statement committed: a PURGE inside a statement that is refused — while planning or
+at commit — or previewed destroys nothing. -/
+theorem only_committed_purge_removes_past (l : List Stmt) (st : Stmt) :
+    (∃ extra, (exec (run Store.init l) st).1.vlog = extra ++ eraseAll (erasedOf (run Store.init l) st) (run Store.init l).vlog ∧
+      ∀ v ∈ extra, v.seq = (run Store.init l).seq + 1) ∧
+    ((∀ q status w, (exec (run Store.init l) st).2 ≠ .done q status w) → erasedOf (run Store.init l) st = []) ∧
+    (∀ i c, i ∉ erasedOf (run Store.init l) st → c ≤ (run Store.init l).seq →
+      elementAt (exec (run Store.init l) st).1.vlog i c = elementAt (run Store.init l).vlog i c) := by
+  have hwf := (run_spec init_WF l).1
+  have ht := run_TInv init_WF init_TInv l
+  obtain ⟨extra, er, h1, h2, h3⟩ := (exec_spec hwf st).vlog
+  have her := h3 (fun e w => exec_no_refusedWrite hwf ht st e w)
+  subst her
+  refine ⟨⟨extra, h1, h2⟩, ?_, ?_⟩
+  · intro hnd
+    unfold erasedOf
+    cases ho : (exec (run Store.init l) st).2 with
+    | done q a b => exact absurd ho (hnd q a b)
+    | refusedPlan e => rfl
+    | refusedCheck e => rfl
+    | refusedWrite e w => rfl
+    | dryRun c => rfl
+  · intro i c hi hc
+    rw [h1, elementAt_skip_newer extra _ i c (fun v hv => by rw [h2 v hv]; omega), elementAt_eraseAll_other _ _ i c hi]
+
+/-- what a committed statement erases are exactly the elements it staged a purge for (and changed) -/
+theorem erased_are_staged_purges (s : Store) (st : Stmt) (i : Id) (hi : i ∈ erasedOf s st) :
+    ∃ x, (i, x) ∈ (planned s st).tx.staged ∧ x.erase = true ∧ x.changed = true := by
+  unfold erasedOf at hi
+  split at hi
+  · obtain ⟨p, hp, hpi⟩ := List.mem_map.mp hi
+    obtain ⟨h1, h2⟩ := List.mem_filter.mp hp
+    simp only [Bool.and_eq_true] at h2
+    exact ⟨p.2, by rw [← hpi]; exact h1, h2.2, h2.1⟩
+  · cases hi
+
+/-- destroying the rows of another element changes nothing for `i`; destroying its own leaves nothing -/
 theorem only_purge_removes_past (s : Store) (i j : Id) (c : Nat) (h : j ≠ i) :
     elementAt (purgeVersions s.vlog j) i c = elementAt s.vlog i c := by
-  unfold purgeVersions
-  induction s.vlog with
-  | nil => rfl
-  | cons v r ih =>
-      simp only [List.filter_cons]
-      by_cases hv : v.id = j
-      · have hvi : v.id ≠ i := fun e => h (hv.symm.trans e)
-        simp only [hv, ne_eq, not_true_eq_false, decide_false, Bool.false_eq_true, if_false]
-        rw [ih]
-        simp only [elementAt]
-        rw [if_neg (by intro hm; exact hvi hm.1)]
-      · simp only [ne_eq, hv, not_false_eq_true, decide_true, if_true, elementAt, ih]
+  rw [purgeVersions_eq]
+  exact elementAt_eraseAll_other [j] s.vlog i c (by simp; exact fun e => h e.symm)
 
-/-- and purging `i` itself leaves nothing of it at any coordinate -/
 theorem purge_erases (log : List VEntry) (i : Id) (c : Nat) : elementAt (purgeVersions log i) i c = none := by
-  unfold purgeVersions
-  induction log with
-  | nil => rfl
-  | cons v r ih =>
-      simp only [List.filter_cons]
-      by_cases hv : v.id = i
-      · simp only [hv, ne_eq, not_true_eq_false, decide_false, Bool.false_eq_true, if_false]; exact ih
-      · simp only [ne_eq, hv, not_false_eq_true, decide_true, if_true]
-        rw [elementAt, if_neg (fun hm => hv hm.1)]
-        exact ih
+  rw [purgeVersions_eq]
+  exact elementAt_eraseAll_self [i] log i c (by simp)
 
-/-- the append-only half: a history only ever adds rows, at sequences above the ones it found -/
-theorem log_append_only (s : Store) (hwf : WF s) (l : List Stmt) :
-    ∃ extra, (run s l).vlog = extra ++ s.vlog ∧ ∀ v ∈ extra, s.seq < v.seq :=
-  (run_spec hwf l).2.2.2
+/-- a PURGE next to a clause that only the commit refuses: nothing is written **and nothing is erased** -/
+def histP : List Stmt :=
+  [{ dry := false, clauses := [.createConcept 1 1 7 1 false, .createConcept 2 2 0 2 false] },
+   { dry := false, clauses := [.update (.id ⟨.concept, 2⟩) 5 none false] }]
+def stmtPurgeRefused : Stmt :=
+  { dry := false, clauses := [.purge (.id ⟨.concept, 2⟩) false, .createConcept 1 1 7 9 false] }
+example : (exec (run Store.init histP) stmtPurgeRefused).2 = .refusedCheck .identityConflict ∧
+    (exec (run Store.init histP) stmtPurgeRefused).1.vlog = (run Store.init histP).vlog ∧
+    erasedOf (run Store.init histP) stmtPurgeRefused = [] := by decide
+/-- the same PURGE alone commits: the stub is version 3 and the two old rows are gone -/
+example : ((exec (run Store.init histP) { dry := false, clauses := [.purge (.id ⟨.concept, 2⟩) false] }).1.vlog.map
+      (fun v => (v.id, v.version, v.elem.state))) = [(⟨.concept, 2⟩, 3, .purged), (⟨.concept, 1⟩, 1, .active)] ∧
+    erasedOf (run Store.init histP) { dry := false, clauses := [.purge (.id ⟨.concept, 2⟩) false] } = [⟨.concept, 2⟩] := by decide
+
+/-- the log of a history: rows at greater sequences on top of the old rows minus the committed purges -/
+theorem log_append_only (s : Store) (hwf : WF s) (ht : TInv s) (l : List Stmt) :
+    ∃ extra, (run s l).vlog = extra ++ eraseAll (erasedRun s l) s.vlog ∧ ∀ v ∈ extra, s.seq < v.seq :=
+  run_vlog hwf ht l
 
 /-- the immutable payload columns of element `i` are the same in all its version rows -/
 def PayloadConst (log : List VEntry) : Prop :=
@@ -106,7 +150,8 @@ def PayloadConst (log : List VEntry) : Prop :=
     v.elem.row.ty = w.elem.row.ty
 
 /-- The epistemic payload of an assertion or evidence record (and the tuple / key / type of any
-element) is identical in every version of it: along every history all version rows of one element
+element) is identical in every version of it: along every history — purges included, because a
+committed purge destroys the old rows together with the content — all version rows of one element
 agree in the immutable columns. -/
 theorem payload_immutable (l : List Stmt) : PayloadConst (run Store.init l).vlog := by
   have h := run_LInv init_WF init_TInv init_LInv l
@@ -117,12 +162,14 @@ theorem payload_immutable (l : List Stmt) : PayloadConst (run Store.init l).vlog
   cases he1
   exact ⟨a1.symm.trans b1, a2.symm.trans b2, a3.symm.trans b3, a4.symm.trans b4⟩
 
-/-- the step behind it: a committed change that is not a creation keeps payload, tuple, key, type -/
+/-- the step behind it: a committed change of an element that existed keeps payload, tuple, key and
+type — or the statement purges the element (and destroys its old rows) -/
 theorem payload_immutable_step (s : Store) (hwf : WF s) (st : Stmt) (q : Nat) (status : JStatus) (w : List Change)
     (h : (exec s st).2 = .done q status w) (c : Change) (hc : c ∈ w) (e0 e1 : Elem)
-    (h0 : s.elems c.id = some e0) (h1 : (exec s st).1.elems c.id = some e1) (hop : c.op ≠ .create) :
-    e1.row.pay = e0.row.pay ∧ e1.row.tup = e0.row.tup ∧ e1.row.key = e0.row.key ∧ e1.row.ty = e0.row.ty :=
-  (exec_done hwf st q status w h).immutable c hc e0 e1 h0 h1 hop
+    (h0 : s.elems c.id = some e0) (h1 : (exec s st).1.elems c.id = some e1) :
+    (e1.row.pay = e0.row.pay ∧ e1.row.tup = e0.row.tup ∧ e1.row.key = e0.row.key ∧ e1.row.ty = e0.row.ty) ∨
+    c.id ∈ erasedOf s st :=
+  (exec_done hwf st q status w h).immutable c hc e0 e1 h0 h1
 
 example : ((run (run Store.init hist1) hist2).vlog.map (fun v => (v.id, v.version, v.elem.row.key, v.elem.row.ty))) =
     [(⟨.concept, 1⟩, 4, 1, 1), (⟨.concept, 1⟩, 3, 1, 1), (⟨.concept, 1⟩, 2, 1, 1), (⟨.concept, 1⟩, 1, 1, 1)] := by decide
